@@ -7,7 +7,8 @@ reader (`A2Verif.Read.*`) sees in the saved image before and after one a2kit ope
 operation the user asked for and `res` whether a2kit reported success.  The conditions are exactly what
 properties C01, C02, C03, C05 and C19 say about a single step and nothing more; in particular the choice of
 blocks is unconstrained (any previously free units), and a directory may grow during any step.
-The history-level statements (any number of steps) are theorems in `Props/FsSpec.lean`.
+The history-level statements (any number of steps) are theorems in `Props/C01.lean` … `C06.lean`, `C19.lean`
+(histories: `Model/VolTrace.lean`, helper lemmas: `Lemmas/VolSpec.lean`).
 -/
 namespace A2Verif
 
@@ -114,21 +115,21 @@ def stepConds (P : FsParams) (pre : Vol) (op : FsOp) (ok : Bool) (post : Vol) : 
     [ sound,
       ("lock-target-existed", (pre.lookup p).isSome),
       ("lock-sets-protection", match pre.lookup p, post.lookup p with
-          | some f, some g => g.locked && g.chunks == f.chunks && g.eof == f.eof && g.owned == f.owned && g.ftype == f.ftype && g.aux == f.aux
+          | some f, some g => g.locked && g.chunks == f.chunks && g.eof == f.eof && g.owned == f.owned && g.ftype == f.ftype && g.aux == f.aux && g.isDir == f.isDir
           | _, _ => false),
       ("bystanders-unchanged", sameFiles (without pre.files [p]) (without post.files [p])) ]
   | .unlock p, true =>
     [ sound,
       ("unlock-target-existed", (pre.lookup p).isSome),
       ("unlock-clears-protection", match pre.lookup p, post.lookup p with
-          | some f, some g => !g.locked && g.chunks == f.chunks && g.eof == f.eof && g.owned == f.owned && g.ftype == f.ftype && g.aux == f.aux
+          | some f, some g => !g.locked && g.chunks == f.chunks && g.eof == f.eof && g.owned == f.owned && g.ftype == f.ftype && g.aux == f.aux && g.isDir == f.isDir
           | _, _ => false),
       ("bystanders-unchanged", sameFiles (without pre.files [p]) (without post.files [p])) ]
   | .retype p, true =>
     [ sound,
       ("retype-target-existed", (pre.lookup p).isSome),
       ("retype-keeps-content", match pre.lookup p, post.lookup p with
-          | some f, some g => g.chunks == f.chunks && g.eof == f.eof && g.owned == f.owned
+          | some f, some g => g.chunks == f.chunks && g.eof == f.eof && g.owned == f.owned && g.isDir == f.isDir
           | _, _ => false),
       ("bystanders-unchanged", sameFiles (without pre.files [p]) (without post.files [p])) ]
   | .mkdir p, true =>
